@@ -325,6 +325,9 @@ def check_C11(tier):
     engine_run(c, "incr", "CoreMenu", lines="LinesAgg", maxlines=5 if t else 4, maxfiles=1, modes=("incr",), tdefs=("plain", "knn"))
     engine_run(c, "incr-agg", "AggMenu", lines="LinesAgg", maxlines=3, maxfiles=1, modes=("incr",), tdefs=("plain",))
     engine_follow_run(c, "tables", "CoreMenu", lines="LinesAgg", maxlines=4 if t else 3, tdefs=("plain", "knn"), sample=4000 if t else 1200)
+    # the batch side of the comparison reads the same lines as the follow side: a byte order mark at the start of a file stays part of its first line
+    engine_run(c, "bom-first-line", "BomMenu", lines="LinesBom", maxlines=2, maxfiles=2, modes=("batch", "incr"), tdefs=("anch", "plain"))
+    engine_follow_run(c, "bom", "BomMenu", lines="LinesBom", maxlines=2, tdefs=("anch", "plain"), sample=300)
     # line-by-line feeding of a statement with a join (library API: with_executed_joined_table + execute per line)
     engine_run(c, "incr-join", "JoinMenu", lines="LinesJ", maxlines=3 if t else 2, maxfiles=1, joinsets="JoinSets", modes=("incr",), tdefs=("plain",))
     # values that are equal but distinguishable (0.0 / -0.0, NaN / -NaN) arriving on either side of a shown table: PERCENTILE / MIN / MAX / GROUP BY keep the batch result
@@ -452,10 +455,10 @@ def check_C12(tier):
     # the process itself: input files in command-line order, FROM t::'file' and --stdin replacing them, a file that cannot be opened, statistics
     cli_run(c, "files", ["all", "count", "limit1", "limit2", "from", "frommissing"], ["ok"], ["json"], 3 if t else 2, fileids=("fa", "fb", "fc", "fe", "missing") if t else ("fa", "fb", "fe", "missing"))
     laws_trace(c, 2 if t else 1, 300 if t else 100)
-    c.rule = ("TLC enumerates every byte content up to MaxLen over {x, LF, CR, a byte that is not UTF-8, U+00E9} and every cut into 1..MaxFiles files; each case is written to real files "
+    c.rule = ("TLC enumerates every byte content up to MaxLen over {x, LF, CR, 0xFF, 0xC3, 0xA9} (U+00E9 whole, cut off by a line end / file end / other byte, its second byte alone) and every cut into 1..MaxFiles files; each case is written to real files "
               "(x also expanded to runs of 8191/8192/8193 bytes around the BufReader capacity for every 50th case) and read by FileExecutor (SELECT x, COUNT(*), total_lines) and by the join loader. "
               "Non-trivial = at least one line; distinct by (files, run length).")
-    c.assumptions = ["the regex (.*) admits every line", "invalid UTF-8 is modelled by the single byte 0xFF"]
+    c.assumptions = ["the regex (.*) admits every line", "invalid UTF-8 is modelled by 0xFF, a lead byte without its continuation and a continuation byte without its lead"]
     c.exhaustive = True
     return c.finish()
 
